@@ -56,6 +56,10 @@ type Client struct {
 	Pools       *TypedStore[IPPool]
 	Devices     *TypedStore[Device]
 
+	// allocMu serialises IP allocation: the collision check of allocateFromPool
+	// and the recording of its result must not interleave with another allocation
+	allocMu sync.Mutex
+
 	// Local caches for fast access
 	mu              sync.RWMutex
 	subscriberCache map[string]*Subscriber
@@ -485,6 +489,9 @@ func (c *Client) GetSubscriberByMAC(mac string) (*Subscriber, bool) {
 // If the subscriber already has an IP, it returns that IP.
 // Otherwise, it allocates from the subscriber's assigned pool.
 func (c *Client) AllocateIPForSubscriber(ctx context.Context, subscriberID string) (string, error) {
+	c.allocMu.Lock()
+	defer c.allocMu.Unlock()
+
 	// Get subscriber
 	sub, ok := c.GetSubscriber(subscriberID)
 	if !ok {
@@ -522,11 +529,16 @@ func (c *Client) AllocateIPForSubscriber(ctx context.Context, subscriberID strin
 	}
 
 	// Update subscriber with allocated IP
+	prevPool, prevUpdated := sub.IPv4Pool, sub.UpdatedAt
 	sub.IPv4Addr = ip
 	sub.IPv4Pool = poolID
 	sub.UpdatedAt = time.Now().UTC()
 
 	if err := c.SaveSubscriber(ctx, sub); err != nil {
+		// Not persisted: the address goes back into circulation
+		sub.IPv4Addr = ""
+		sub.IPv4Pool = prevPool
+		sub.UpdatedAt = prevUpdated
 		return "", fmt.Errorf("save subscriber: %w", err)
 	}
 
@@ -540,7 +552,9 @@ func (c *Client) AllocateIPForSubscriber(ctx context.Context, subscriberID strin
 }
 
 // allocateFromPool allocates an IP from a pool using deterministic hashing.
-// This ensures the same subscriber always gets the same IP (hashring-like behavior).
+// The subscriber's hash selects the preferred address (the same subscriber gets
+// the same address while it is free); an address held by another subscriber is
+// skipped (linear probing), so no address is ever handed to two subscribers.
 func (c *Client) allocateFromPool(ctx context.Context, pool *IPPool, subscriberID string) (string, error) {
 	// Parse CIDR
 	baseIP, ipNet, err := parseIPNet(pool.CIDR)
@@ -557,21 +571,46 @@ func (c *Client) allocateFromPool(ctx context.Context, pool *IPPool, subscriberI
 		return "", fmt.Errorf("pool %s has no usable addresses", pool.ID)
 	}
 
-	// Hash subscriber ID to get deterministic offset
+	// Addresses held by the other subscribers
+	used := c.addressesInUse(subscriberID)
+
+	// Hash subscriber ID to get the preferred offset, then probe
 	hash := hashString(subscriberID)
-	offset := int(hash%uint64(numHosts)) + 1 // +1 to skip network address
+	start := int(hash % uint64(numHosts))
+	for probe := 0; probe < numHosts; probe++ {
+		offset := (start+probe)%numHosts + 1 // +1 to skip network address
 
-	// Calculate IP
-	ip := make([]byte, 4)
-	copy(ip, baseIP)
+		// Calculate IP: network address (host bits cleared) plus offset
+		ip := make([]byte, 4)
+		for i := 0; i < 4; i++ {
+			ip[i] = baseIP[i] & ipNet.Mask[i]
+		}
+		ip[3] += byte(offset & 0xFF)
+		ip[2] += byte((offset >> 8) & 0xFF)
+		ip[1] += byte((offset >> 16) & 0xFF)
+		ip[0] += byte((offset >> 24) & 0xFF)
 
-	// Add offset to base IP
-	ip[3] += byte(offset & 0xFF)
-	ip[2] += byte((offset >> 8) & 0xFF)
-	ip[1] += byte((offset >> 16) & 0xFF)
-	ip[0] += byte((offset >> 24) & 0xFF)
+		candidate := formatIP(ip)
+		if _, taken := used[candidate]; !taken {
+			return candidate, nil
+		}
+	}
 
-	return formatIP(ip), nil
+	return "", fmt.Errorf("pool %s exhausted", pool.ID)
+}
+
+// addressesInUse returns the IPv4 addresses held by subscribers other than subscriberID.
+func (c *Client) addressesInUse(subscriberID string) map[string]struct{} {
+	c.mu.RLock()
+	defer c.mu.RUnlock()
+
+	used := make(map[string]struct{}, len(c.subscriberCache))
+	for id, sub := range c.subscriberCache {
+		if id != subscriberID && sub != nil && sub.IPv4Addr != "" {
+			used[sub.IPv4Addr] = struct{}{}
+		}
+	}
+	return used
 }
 
 // LookupSubscriberIP looks up the pre-allocated IP for a subscriber.
